@@ -85,6 +85,7 @@ fn main() {
             let offset: u64 = arg(&args, "--offset").unwrap_or("0").parse().unwrap();
             let samples: u64 = arg(&args, "--samples").unwrap_or("2").parse().unwrap();
             let deadline: Option<f64> = arg(&args, "--deadline-s").map(|s| s.parse().unwrap());
+            let depth: u32 = arg(&args, "--depth").unwrap_or("0").parse().unwrap();
             // self-test: execute every run `repeat` times in a row in this process
             let repeat: u64 = arg(&args, "--repeat").unwrap_or("1").parse().unwrap();
             let mut rep = 0u64;
@@ -100,12 +101,15 @@ fn main() {
                         break;
                     }
                 }
-                let g = gen::generate(seed, i, prop);
+                let mut g = gen::generate(seed, i, prop);
+                g.scenario.depth = depth;
                 let rec = run_scenario(prop, g.scenario, false);
                 let mut rec = rec;
                 if rec.scenario.is_none() && kept < samples && matches!(rec.verdict, Verdict::Ok) {
                     // keep a few full scenarios as evidence samples
-                    rec.scenario = Some(gen::generate(seed, i, prop).scenario);
+                    let mut sc = gen::generate(seed, i, prop).scenario;
+                    sc.depth = depth;
+                    rec.scenario = Some(sc);
                     kept += 1;
                 }
                 serde_json::to_writer(&mut out, &rec).unwrap();
